@@ -95,9 +95,14 @@ class AssemblyManager(object):
             for i, ref in enumerate(feature.qualifiers.get("citation", [])):
                 if isinstance(ref, six.string_types):
                     continue  # still (or already) in index form
-                if ref not in references:
-                    references.append(ref)
-                ref_index = references.index(ref) + 1
+                # the very object first (two entries of one list may compare equal)
+                ref_index = next(
+                    (n for n, r in enumerate(references, 1) if r is ref), None
+                )
+                if ref_index is None:
+                    if ref not in references:
+                        references.append(ref)
+                    ref_index = references.index(ref) + 1
                 feature.qualifiers["citation"][i] = "[{}]".format(ref_index)
 
     def _annotate_assembly(self, assembly):
